@@ -211,6 +211,16 @@ def rule_nop(ctx):
                     ctx.violation("C16.b", "cursor", "FakeSnowflakeCursor.execute", "nop match falls through", "fakesnow/cursor.py",
                                   f"a statement matching nop_regexes still has {tr.hooks.parsed} parse(s) and engine statements "
                                   f"{[tagof(s)[:40] for s in tr.engine_sql]}: it must return the success status and have no effect")
+                # the status reaches the engine as the constant it is: the rewrite chain is for user statements (its identifier
+                # folding would rename the lower-case `status` column every other status producer keeps)
+                again = sorted({tagof(e[2]).rsplit(".", 1)[-1] for e in tr.path.effects if e[0] == "transform" and "SUCCESS_NOP" in tagof(e[1])})
+                ctx.ob("C16.b", "match: the success status is sent as is, not through the statement rewrite chain", not again, "fakesnow/cursor.py",
+                       ", ".join(again[:5]))
+                if again:
+                    ctx.violation("C16.b", "cursor", "FakeSnowflakeCursor.execute", "status of a no-op'd statement rewritten by the stage chain", "fakesnow/cursor.py",
+                                  f"on a nop_regexes match the status statement is sent through {len(again)} rewrite stages ({', '.join(again[:4])}, ...): "
+                                  f"identifier folding renames its `status` column to STATUS, so the no-op'd statement does not return the success "
+                                  f"status every other statement returns (DictCursor keys, description, pandas column differ)")
             else:
                 n_nomatch += 1
                 ok = tr.hooks.parsed == 1 and tr.engine_sql and "SUCCESS_NOP" not in tagof(tr.engine_sql[0])
